@@ -401,13 +401,16 @@ impl<'r> Gen<'r> {
                     }
                     2 | 3 => match self.syn_expr(ctx, need_local) {
                         Some(s) => {
-                            let f = *self.rng.pick(&[
-                                "start-row",
-                                "start-column",
-                                "end-row",
-                                "end-column",
-                                "named-child-count",
-                            ]);
+                            let not_root = match &s {
+                                GExpr::Capture(n, _) => ctx.caps.iter().any(|(c, _, k)| c == n && !k.is_empty() && !k.contains(&"module")),
+                                _ => false,
+                            };
+                            let f = if not_root && self.rng.chance(1, 3) {
+                                self.feature("named_child_index");
+                                "named-child-index"
+                            } else {
+                                *self.rng.pick(&["start-row", "start-column", "end-row", "end-column", "named-child-count"])
+                            };
                             GExpr::call(f, vec![s])
                         }
                         None => self.literal(ty, depth),
@@ -1087,7 +1090,21 @@ impl<'r> Gen<'r> {
                 }]);
                 let was = ctx.in_loop;
                 ctx.in_loop = true;
-                let body = self.block_in_current_scope(ctx, depth + 1);
+                let elem_is_syn = ctx.scopes.last().map(|sc| sc[0].ty == Ty::Syn).unwrap_or(false);
+                let mut body = Vec::new();
+                if elem_is_syn && !was && depth == 0 && self.rng.chance(1, 3) {
+                    // a scoped variable on each list element, read back through the element
+                    let sname = format!("elem_{}_{}", ctx.stanza_index, self.counter);
+                    self.counter += 1;
+                    let value = self.expr(&Ty::Int, ctx, 2, false);
+                    body.push(stmt(StmtKind::Let(GVar::s(GExpr::var(&var), &sname), value)));
+                    let n = self.fresh("n");
+                    self.declare(ctx, &n, Ty::GNode, false, true, None, Sharing::Fresh);
+                    body.push(stmt(StmtKind::Node(GVar::u(&n))));
+                    body.push(stmt(StmtKind::AttrNode(GExpr::var(&n), vec![GAttr { name: "elem_value".into(), value: Some(GExpr::scoped(GExpr::var(&var), &sname)) }, GAttr { name: "elem_text".into(), value: Some(GExpr::call("source-text", vec![GExpr::var(&var)])) }])));
+                    self.feature("scoped_variable_on_list_element");
+                }
+                body.extend(self.block_in_current_scope(ctx, depth + 1));
                 ctx.in_loop = was;
                 ctx.scopes.pop();
                 Some(stmt(StmtKind::For(GUVar::new(&var), src, body)))
@@ -1169,6 +1186,13 @@ impl<'r> Gen<'r> {
     }
 
     fn scan_subject(&mut self, ctx: &mut Ctx) -> GExpr {
+        if let Some(n) = ctx.regex_groups {
+            if self.rng.chance(1, 3) {
+                // a nested scan over a group of the enclosing arm
+                self.feature("scan_over_regex_capture");
+                return GExpr::RegexCap(self.rng.below(n));
+            }
+        }
         match self.rng.below(4) {
             0 => match self.syn_expr(ctx, true) {
                 Some(s) => GExpr::call("source-text", vec![s]),
